@@ -944,3 +944,77 @@ Proof.
   rewrite H1 in Hq. apply E5 in Hq. destruct Hq as [Hq|(rc0 & Hq & Erc0 & Hrep & Hh)]; [now left|].
   right. assert (rc0 = rc) by congruence. subst rc0. split; [exact Hq|]. split; [exact Hrep|]. lia.
 Qed.
+
+(* the first EndBlock of the history: both contexts have their new-batch entry due, both
+   consumers pay the fees of the batch into escrow, nobody else is lowered *)
+Definition ax_s_pre : State := run ax_cfg ax_s0 (firstn 7 ax_ops).
+
+Example ax_pre_reach : Reach ax_cfg ax_s_pre.
+Proof.
+  apply reach_init_run; [lia|lia|unfold ax_funding; wf_funding_tac|].
+  unfold ax_ops. cbn [firstn]. wf_run_tac.
+Qed.
+
+Example C05_new_one_debits_ex :
+  bal (new_one ax_cfg ax_s_pre ax_cA) (User 50) < bal ax_s_pre (User 50)
+  /\ c_cons (ctx_or_zero ax_s_pre ax_cA) = 50
+  /\ bal (new_one ax_cfg ax_s_pre ax_cA) (User 50) = bal ax_s_pre (User 50) - 300
+  /\ bal (new_one ax_cfg ax_s_pre ax_cA) Escrow = bal ax_s_pre Escrow + 300.
+Proof. vm_compute. repeat split; reflexivity. Qed.
+
+Example C05_endblock_debits_ex :
+  Reach ax_cfg ax_s_pre /\ wf_cfg ax_cfg /\ height ax_s_pre < HEIGHT_BOUND
+  /\ bal (end_block ax_cfg ax_s_pre 5) (User 50) < bal ax_s_pre (User 50)
+  /\ bal (end_block ax_cfg ax_s_pre 5) (User 51) < bal ax_s_pre (User 51)
+  /\ In (height ax_s_pre, ax_cA) (newq ax_s_pre) /\ In (height ax_s_pre, ax_cM) (newq ax_s_pre)
+  /\ bal (end_block ax_cfg ax_s_pre 5) (User 42) = bal ax_s_pre (User 42)
+  /\ bal (end_block ax_cfg ax_s_pre 5) (User 43) = bal ax_s_pre (User 43).
+Proof.
+  split; [exact ax_pre_reach|]. split; [exact ax_cfg_wf|].
+  vm_compute. repeat split; auto.
+Qed.
+
+(* the second case of C05_endblock_debits: a repeated context with frequency = timeout whose
+   batch (already answered) expires in this block starts its next batch in the same block *)
+Definition ax_cB : CtxId := (1003, 0).
+Definition ax_ops2 : list Op :=
+  [ ODefine 1 5 true;
+    OBind 1 7 (CBase 200000) (Some ax_raw) 10 42 true;
+    OCall ax_cB 1 [7] 50 0 (CBase 1000) 12 false true 12 5 true true;
+    OEndBlock 5;
+    ORespond (ax_cB, 1, 1, 0) 7 0 0 true true;
+    OEndBlock 5; OEndBlock 5; OEndBlock 5; OEndBlock 5; OEndBlock 5; OEndBlock 5;
+    OEndBlock 5; OEndBlock 5; OEndBlock 5; OEndBlock 5; OEndBlock 5 ].
+Definition ax_s2 : State := run ax_cfg ax_s0 ax_ops2.
+
+Example ax_s2_reach : Reach ax_cfg ax_s2.
+Proof.
+  apply reach_init_run; [lia|lia|unfold ax_funding; wf_funding_tac|].
+  unfold ax_ops2. wf_run_tac.
+Qed.
+
+Example C05_endblock_debits_ex2 :
+  Reach ax_cfg ax_s2 /\ height ax_s2 = 13
+  /\ bal (end_block ax_cfg ax_s2 5) (User 50) < bal ax_s2 (User 50)
+  /\ In (height ax_s2, ax_cB) (expq ax_s2) /\ newq ax_s2 = []
+  /\ exists rc, get ax_cB (ctxs ax_s2) = Some rc /\ c_cons rc = 50 /\ c_state rc = Running
+       /\ c_super rc = false /\ c_rep rc = true /\ c_freq rc = c_timeout rc.
+Proof.
+  split; [exact ax_s2_reach|]. split; [vm_compute; reflexivity|].
+  split; [vm_compute; reflexivity|]. split; [vm_compute; auto|]. split; [vm_compute; reflexivity|].
+  eexists. vm_compute. repeat split; reflexivity.
+Qed.
+
+(* the expiry handler: the unanswered requests of cA expire, their providers' bindings are
+   slashed from Deposit and the consumer is refunded from escrow *)
+Example C05_expire_one_no_debit_ex :
+  let s := run ax_cfg ax_s (repeat (OEndBlock 5) 19) in
+  Reach ax_cfg s /\ In (height s, ax_cA) (expq s)
+  /\ bal (expire_one ax_cfg s ax_cA) (User 50) = bal s (User 50) + 200
+  /\ bal (expire_one ax_cfg s ax_cA) Deposit < bal s Deposit
+  /\ bal (expire_one ax_cfg s ax_cA) (User 42) = bal s (User 42)
+  /\ bal (expire_one ax_cfg s ax_cA) (User 43) = bal s (User 43).
+Proof.
+  split; [apply reach_run; [exact ax_reach|cbn [repeat]; wf_run_tac]|].
+  vm_compute. repeat split; auto.
+Qed.
